@@ -16,6 +16,7 @@ from amqpstorm.exception import AMQPInvalidArgument
 from amqpstorm.message import Message
 
 LOGGER = logging.getLogger(__name__)
+FRAME_OVERHEAD = 8
 
 
 class Basic(Handler):
@@ -416,10 +417,11 @@ class Basic(Handler):
 
         :rtype: collections.Iterable
         """
-        frames = int(math.ceil(len(body) / float(self._max_frame_size)))
+        max_body_size = max(self._max_frame_size - FRAME_OVERHEAD, 1)
+        frames = int(math.ceil(len(body) / float(max_body_size)))
         for offset in compatibility.RANGE(0, frames):
-            start_frame = self._max_frame_size * offset
-            end_frame = start_frame + self._max_frame_size
+            start_frame = max_body_size * offset
+            end_frame = start_frame + max_body_size
             body_len = len(body)
             if end_frame > body_len:
                 end_frame = body_len
